@@ -83,12 +83,14 @@ def make_source(xs, err_at, mon):
 
 
 class Udf:
-    def __init__(self, add, bad):
-        self.add, self.bad = add, set(bad)
+    def __init__(self, add, bad, nones=()):
+        self.add, self.bad, self.nones = add, set(bad), set(nones)
 
     def __call__(self, x):
         if x in self.bad:
             raise UdfError(f"udf fails on {x}")
+        if x in self.nones:
+            return None
         return x + self.add
 
 
@@ -98,7 +100,7 @@ def build(c, mon):
     if c["kind"] == "pf":
         node = Prefetcher(src, prefetch_factor=c["pf"], snapshot_frequency=c["sf"])
     else:
-        node = ParallelMapper(src, Udf(c.get("add", 100), c.get("bad", [])), num_workers=c["nw"], in_order=c["in_order"],
+        node = ParallelMapper(src, Udf(c.get("add", 100), c.get("bad", []), c.get("nones", [])), num_workers=c["nw"], in_order=c["in_order"],
                               method="thread", max_concurrent=c.get("mc"), snapshot_frequency=c["sf"])
     return node, src
 
@@ -238,7 +240,7 @@ def run_case(c):
             if op == "next":
                 try:
                     v = next(node)
-                    obs.append(["item", v])
+                    obs.append(["item", 0 if v is None else v])
                 except StopIteration:
                     obs.append(["stop"])
                 except SrcError:
